@@ -155,7 +155,9 @@ def outputs(beam):
                 vals.append(getattr(beam, "sigma_" + c).reshape(()))
     names.append("energy")
     vals.append(torch.as_tensor(beam.energy, dtype=D).reshape(()))
-    return names, torch.stack([v.to(D) for v in vals])
+    # NB: the outputs are kept as separate graph roots (no torch.stack): the backward pass of one output must not run through
+    # the graph of another (sqrt of a zero variance would inject 0 * inf = NaN into every gradient)
+    return names, [v.to(D) for v in vals]
 
 
 def evaluate(case, th, grad=False):
@@ -186,13 +188,16 @@ def autograd_jac(case):
     """d outputs / d theta by reverse-mode autograd, one output at a time.  Entries: float, nan/inf, or None."""
     theta, names, y = evaluate(case, theta0(case), grad=True)
     res = []
-    for i in range(y.shape[0]):
-        if not y[i].requires_grad:
+    for n, yi in zip(names, y):
+        if not yi.requires_grad:
             res.append(None)
             continue
-        g = torch.autograd.grad(y[i], theta, retain_graph=True, allow_unused=True)[0]
+        if n.startswith("sigma_") and float(yi) == 0.0:
+            res.append(0.0)          # sqrt at a zero variance: not differentiable, unspecified (compared as 0 against FD noise floor)
+            continue
+        g = torch.autograd.grad(yi, theta, retain_graph=True, allow_unused=True)[0]
         res.append(None if g is None else float(g))
-    return names, [float(v) for v in y.detach()], res
+    return names, [float(v) for v in y], res
 
 
 def fd_jac(case):
@@ -203,11 +208,15 @@ def fd_jac(case):
 
     def f(th):
         with torch.no_grad():
-            return evaluate(case, th)[2]
+            return torch.stack([v.detach() for v in evaluate(case, th)[2]])
     d1 = (f(t0 + h) - f(t0 - h)) / (2 * h)
     d2 = (f(t0 + h / 2) - f(t0 - h / 2)) / h
-    rich = (4 * d2 - d1) / 3
-    err = (rich - d2).abs()
+    d3 = (f(t0 + h / 4) - f(t0 - h / 4)) / (h / 2)
+    r1 = (4 * d2 - d1) / 3
+    rich = (4 * d3 - d2) / 3
+    # error estimate: truncation (difference of the two Richardson values) and round-off noise of the function values themselves
+    # (difference of the two finest plain estimates: noise grows as 1/h while truncation shrinks as h^2)
+    err = torch.maximum((rich - r1).abs(), (d3 - d2).abs())
     return [float(v) for v in rich], [float(v) for v in err], h
 
 
@@ -317,16 +326,9 @@ def classify(case, res):
         return "F62"
     if cls in ("Dipole", "RBend") and p == "angle" and _method(e) == "cheetah" and float(kw.get("angle", 0.0)) == 0.0 \
             and float(kw.get("k1", 0.0)) == 0.0 and kinds == {"value"}:
-        # (1 - cos(1e-6 L)) / 1e-12 carries a relative rounding error of ~2e-16 / (1e-12 L^2 / 2): 4e-4 at L = 1, 4e-2 at L = 0.1
-        L = abs(float(kw.get("length", 1.0)))
-        rel = min(1.0, 4.0 * 2.2e-16 / (0.5e-12 * L * L)) if L > 0 else 1.0
-        big = max(abs(b["fd"]) for b in bad)
-        grp = {}
-        for b in bad:
-            g = "cov" if b["output"].startswith("cov") else ("sigma" if b["output"].startswith("sigma") else "coord")
-            grp[g] = max(grp.get(g, 0.0), abs(b["fd"]), abs(b["autograd"]))
-        if all(abs(b["autograd"] - b["fd"]) <= rel * 4 * grp["cov" if b["output"].startswith("cov") else ("sigma" if b["output"].startswith("sigma") else "coord")] / max(L, 1e-3) + b["tol"]
-               for b in bad) and big > 0:
+        # (1 - cos(1e-6 L)) / 1e-12 carries a relative rounding error of ~2e-16 / (1e-12 L^2 / 2): 4e-4 at L = 1, 4e-2 at L = 0.1,
+        # amplified further by whatever follows in a segment (e.g. 1/sigma for sigma_* outputs): no bound on the magnitude is claimed
+        if all(b["autograd"] is not None and math.isfinite(b["autograd"]) for b in bad):
             return "F64"
     return None
 
@@ -619,13 +621,17 @@ def corr_points(rng, n_random):
     pts.append(("sol_L", dict(L=0.5, k=3.0, E=E0)))
     pts.append(("dipole_k1", dict(L=1.0, k1=0.5, E=E0, cls="Dipole")))
     pts.append(("dipole_k1", dict(L=1.0, k1=-1.0, E=E0, cls="RBend")))
+    pts.append(("bend_k1", dict(L=1.0, k1=0.5, a=0.1, E=E0, cls="Dipole")))
+    pts.append(("bend_k1", dict(L=0.5, k1=-1.0, a=-0.3, E=2e7, cls="RBend")))
+    pts.append(("bend_angle", dict(L=1.0, k1=0.5, a=0.1, E=E0, cls="Dipole")))
+    pts.append(("bend_angle", dict(L=0.5, k1=-2.0, a=0.2, E=E0, cls="Dipole")))
     pts.append(("seg_k1", dict(L=0.3, k1=2.0, Ld=0.5, E=E0)))
     pts.append(("seg_Ld", dict(L=0.3, k1=-1.5, Ld=0.5, E=E0)))
     for _ in range(n_random):
         E = rng.choice(ENERGIES)
         L = rng.choice(LENGTHS)
         fam = rng.choice(["quad_k1", "quad_k1", "quad_k1", "quad_L", "quad_L", "drift_L", "sol_k", "sol_k", "sol_L", "seg_k1", "seg_Ld",
-                          "dipole_k1", "hcor", "vcor"])
+                          "dipole_k1", "hcor", "vcor", "bend_k1", "bend_angle"])
         k1 = rr(rng, -8, 8) if rng.random() < 0.8 else rng.choice([1e-3, -1e-3, 1e-2])
         p = dict(L=L, E=E)
         if fam in ("quad_k1", "quad_L", "seg_k1", "seg_Ld"):
@@ -634,6 +640,11 @@ def corr_points(rng, n_random):
             p["Ld"] = rng.choice(LENGTHS)
         if fam == "dipole_k1":
             p.update(k1=k1, cls=rng.choice(["Dipole", "RBend"]))
+        if fam in ("bend_k1", "bend_angle"):
+            a = rng.choice([0.01, -0.02, 0.1, -0.3, rr(rng, -0.4, 0.4)])
+            while abs(k1 + (a / L) ** 2) < 1e-2:          # kx2 = k1 + hx^2 = 0 is a pole of the formulas (unspecified point)
+                k1 = rr(rng, -8, 8)
+            p.update(k1=k1, a=a, cls="Dipole" if fam == "bend_angle" else rng.choice(["Dipole", "RBend"]))
         if fam in ("sol_k", "sol_L"):
             p["k"] = rr(rng, -3, 3)
         if fam in ("hcor", "vcor"):
@@ -679,6 +690,32 @@ def corr_goal(fam, p):
             for ij in entries:
                 cond[ij] = kap
             exact_zero = [(0, 2), (0, 5), (1, 5), (4, 0), (4, 5), (6, 6)]
+    elif fam in ("bend_k1", "bend_angle"):
+        # edge angles, fringe integral and tilt are 0: the code's edge / rotation factors are exact identities in floats and do
+        # not depend on k1; for RBend dipole_e = rbend_e + angle/2 must vanish, hence rbend_e = -angle/2
+        L, k1, a = p["L"], p["k1"], p["a"]
+        cls = getattr(cheetah, p["cls"])
+
+        def mkb(kk, aa):
+            if p["cls"] == "Dipole":
+                return cls(length=T(L), angle=aa, k1=kk, dtype=D).transfer_map(Et)
+            return cls(length=T(L), angle=aa, k1=kk, rbend_e1=T(-a / 2), rbend_e2=T(-a / 2), dtype=D).transfer_map(Et)
+        entries = BLOCK8[:4] + [(0, 5), (1, 5), (4, 0), (4, 1), (4, 5)]
+        hxs = f"({env('a', a)} / {env('L', L)})"
+        if fam == "bend_k1":
+            obs = tm_jacobian(lambda th: mkb(th, T(a)), k1, [(i, j) for i in range(7) for j in range(7)])
+            term = f"(dsbend_dk1 {env('L', L)} {env('k1', k1)} {hxs} {lE})"
+            entries = entries + BLOCK8[4:]
+        else:
+            obs = tm_jacobian(lambda th: mkb(T(k1), th), a, [(i, j) for i in range(7) for j in range(7)])
+            term = f"(rmscale (/ {env('L', L)}) (dsbend_dhx {env('L', L)} {env('k1', k1)} {hxs} {lE}))"
+        hx = a / L
+        kx = k1 + hx * hx
+        c1, s1 = _cs(kx, L)
+        c2, s2 = _cs(-k1, L)
+        kap = (1 + abs(hx)) ** 3 * (1 + 1 / abs(kx)) ** 2 * (1 + L) * (abs(c1) + abs(s1) + abs(c2) + abs(s2) + L) * (1 + abs(k1) + 1 / abs(k1)) / min(L, 1.0)
+        for ij in entries:
+            cond[ij] = kap
     elif fam == "quad_L":
         L, k1 = p["L"], p["k1"]
         mk = lambda th: cheetah.Quadrupole(length=th, k1=T(k1), dtype=D).transfer_map(Et)     # noqa: E731
